@@ -7,7 +7,10 @@ the valid range for slices and loop ranges, which numpy.arange / Python slicing 
 Extended family (second half of props/h23.py): subscript expressions of the loop variable (descending, strided,
 offset), stepped loop ranges, loops over either dimension of a matrix / of an array-of-components member / over a
 scalar, for-statements in functions, strided and matrix slices, degenerate shapes, shapes that can never be valid,
-subscripts computed from Integer parameters, der(x[i]).  After a counterexample in one of these shards the shard's
+subscripts computed from Integer parameters, der(x[i]).  Third round: subscripted references reached through hierarchical
+names with unsubscripted levels (a.x[..], b.a.x[..], q[..].s, a.W[..,..], q[..].a.x[..]; loop-dependent, constant and slice
+subscripts) and other observation points (the value of a symbol attribute, of a parameter / constant binding, of a
+declaration equation, of a component modification; further expression contexts; initial equations).  After a counterexample in one of these shards the shard's
 window is swept concretely and every failing argument tuple is reported under its own (stable) case id."""
 import json
 import os
@@ -32,7 +35,7 @@ def replay_call(func, args):
 
 
 # extended-family functions ALL of whose arguments have a finite window: a concrete sweep of a shard is exhaustive
-BOUNDED = {"forexpr", "forstep", "formix", "forscalar", "forfunc", "slice3n", "mslice"}
+BOUNDED = {"forexpr", "forstep", "formix", "forscalar", "forfunc", "slice3n", "mslice", "forhier", "hslice", "attr", "attrslice", "ctx"}
 
 
 def windowed_sweep(rep, v, swept):
@@ -84,6 +87,15 @@ def main():
     ext += [("formix", f"nest={ne},pos={p}") for ne in (0, 1) for p in (0, 1)]
     ext += [("forscalar", ""), ("forfunc", "")]
     ext += [("psub", f"kind={k}") for k in ((1, 2, 3, 4, 5, 6) if thorough else (1, 4, 6))]
+    # third round: hierarchical names (hsub is traced: constant subscripts over all integers) ...
+    ext = [("hsub", f"g={g}") for g in ((0, 1, 2, 3, 4, 5) if thorough else (0, 1))] + ext
+    #     (quick: one shard per group with the variant dimension capped; thorough: one shard per group and variant)
+    ext += [("forhier", f"g={g},ek={ek}") for g in range(6) for ek in range(5)] if thorough else [("forhier", f"g={g},ekmax=1") for g in range(6)]
+    ext += [("hslice", f"s={s}") for s in ((0, 1, 2, 3) if thorough else (0, 2))]
+    # ... and subscripted references as attribute / binding / modification values and in other expression contexts
+    ext += [("attr", f"g={g},form={fo}") for g in range(4) for fo in range(3)] if thorough else [("attr", f"g={g},formmax=1") for g in range(4)]
+    ext += [("attrslice", f"src={src},s={s}") for src in ((0, 3) if thorough else (0,)) for s in ((0, 1, 2) if thorough else (0, 2))]
+    ext += [("ctx", "")]
     spec = [(f, (f"f={f}," + pin).rstrip(",")) for f, pin in ext] + spec
     ct = 150 if a.tier == "quick" else 600
     vs = chx.run(HARNESS, spec, jobs=a.jobs, cond_timeout=ct, path_timeout=30)
